@@ -61,6 +61,10 @@ an equality-compared dependency must not distinguish equal values: user
 contract). -/
 inductive Field where
   | value | aux | xn | xi | xe
+  /-- a MAPPED trait (`Map({...})`): the heap records the key assigned; the shadow trait `xm_` that
+  `post_setattr` maintains (ctraits.c `setattr_trait`: post_setattr runs BEFORE the notifiers) is a
+  function of it, so a getter reading the shadow reads a function of this field -/
+  | xm
   deriving DecidableEq, Repr
 
 /-- One `HasTraits` object of the dependency graph:
@@ -74,6 +78,7 @@ structure Obj where
   xn : Int := 0
   xi : Int := 0
   xe : Int := 0
+  xm : Int := 0
   inst : Option Id := none
   kids : List Id := []
   byname : List (Key × Id) := []
@@ -103,6 +108,7 @@ def Obj.get (ob : Obj) : Slot → Content
   | .scalar .xn => .int ob.xn
   | .scalar .xi => .int ob.xi
   | .scalar .xe => .int ob.xe
+  | .scalar .xm => .int ob.xm
   | .inst => .ref ob.inst
   | .kids => .ids ob.kids
   | .byname => .dict ob.byname
@@ -139,6 +145,7 @@ def Obj.put (ob : Obj) : Write → Obj
   | .scalar .xn v => { ob with xn := v }
   | .scalar .xi v => { ob with xi := v }
   | .scalar .xe v => { ob with xe := v }
+  | .scalar .xm v => { ob with xm := v }
   | .inst t => { ob with inst := t }
   | .kids l => { ob with kids := l }
   | .byname d => { ob with byname := d }
@@ -475,7 +482,7 @@ def blank (h : Heap) (r : Id) : Heap := fun i => if i = r then {} else h i
 /-- Assignment order of `__getstate__` / `copyable_trait_names` (definition order). -/
 def rootWrites (ob : Obj) : List Write :=
   [.scalar .value ob.value, .scalar .aux ob.aux, .scalar .xn ob.xn, .scalar .xi ob.xi,
-   .scalar .xe ob.xe, .inst ob.inst, .kids ob.kids, .byname ob.byname, .tags ob.tags]
+   .scalar .xe ob.xe, .scalar .xm ob.xm, .inst ob.inst, .kids ob.kids, .byname ob.byname, .tags ob.tags]
 
 /-- `__init__(**kw)`, `__setstate__`, `clone_traits`: a new object (empty
 `__dict__`, no dynamic listeners) gets its observers (`_init_trait_observers`),
